@@ -54,6 +54,10 @@ pub fn matches<'a>(k: &'a KnownFile, property: &str, tag: &str, sc: &Scenario, o
 /// different violation of the same property is still reported.
 pub fn signature_matches(sig: &str, sc: &Scenario, out: &RunOutput, v: &Violation) -> bool {
     match sig {
+        // the oracle tag itself is specific to the finding
+        "always" => true,
+        // the oracle recorded the defect-specific context flag
+        "aux-flag" => v.aux == Some(1),
         // F1: an MTU probe (payload larger than the proven segment size) was delivered to the
         // receiver, its acknowledgement did not arrive in time, the probe was popped and its
         // bytes re-segmented under the same sequence number with a different length. The
